@@ -245,8 +245,13 @@ def run_tlc(ctx, name, spec, env_override=None, allow_spec_violation=False):
         if isinstance(v, str) and v.startswith("art:g_"):
             try:
                 with open(ctx.art(v[4:])) as f:
-                    if json.loads(f.readline()).get("faithful") is False:
-                        unfaithful.append(v[4:])
+                    first = json.loads(f.readline())
+                # States identified by behavioural merging (the rendering did not close within the cap): the
+                # merged automaton can splice together runs that no single real run performs, so a difference
+                # found on it is not evidence of a violation. It keeps the job running; its findings are
+                # inconclusive. (The table replays and the trace validation do not depend on state identity.)
+                if first.get("idmode") == "behaviour" or first.get("faithful") is False:
+                    unfaithful.append(v[4:])
             except Exception:
                 pass
     if unfaithful:
